@@ -1065,11 +1065,13 @@ func (ex *Exec) evalConversion(st *State, call *ast.CallExpr, to types.Type) Val
 					a := ex.floatOperand(st, be.X)
 					b := ex.floatOperand(st, be.Y)
 					if a != nil && b != nil {
-						two40 := BigLit(new(big.Int).Lsh(big.NewInt(1), 40))
-						g := And(Le(Zero, a), Lt(a, two40), Lt(Zero, b), Lt(b, IntLit(1<<20)))
+						// float64(a), float64(b) are exact below 2^53; q = a/b is either an integer (exact) or at least 1/b away
+						// from one, while the rounding error of the division is at most q*2^-53 < 1/b for a < 2^53
+						two40 := BigLit(new(big.Int).Lsh(big.NewInt(1), 52))
+						g := And(Le(Zero, a), Lt(a, two40), Lt(Zero, b), Lt(b, IntLit(1<<31)))
 						ex.oblige(st, "float-lemma", ex.site("float-lemma"), g, call)
 						st.assume(g)
-						ex.note("float64 arithmetic int(math.Ceil(float64(a)/float64(b))) replaced by (a+b-1) div b under 0<=a<2^40, 0<b<2^20 (trusted lemma)")
+						ex.note("float64 arithmetic int(math.Ceil(float64(a)/float64(b))) replaced by (a+b-1) div b under 0<=a<2^52, 0<b<2^31 (trusted lemma: operands exact, rounding error of the quotient below 1/b)")
 						return SV{T: Div(Add(a, b, IntLit(-1)), b)}
 					}
 				}
